@@ -317,6 +317,8 @@ class MethodNotAllowed(BadRequest):
             self.detail = '%s Allowed methods: %r' % (self.detail,
                                                       method_list)
         super(MethodNotAllowed, self).__init__(*args, **kwargs)
+        if self.allowed_methods:
+            self.headers['Allow'] = ', '.join(sorted(self.allowed_methods))
 
 
 class NotAcceptable(BadRequest):
